@@ -9,12 +9,14 @@ Import ListNotations.
 Open Scope Z_scope.
 
 (* (A) the interpreted operations are closed on words, so the abstract semantics never blocks *)
-Theorem word_op_closed : forall op w, word_op op = Some w ->
+Theorem word_op_closed : forall op w, RangeOp.word_op op = Some w ->
   forall a b, 0 <= a < W -> 0 <= b < W -> 0 <= w a b < W.
 Proof. exact WordClosed.word_op_closed. Qed.
 Print Assumptions word_op_closed.
 
-Theorem step_conc_total : forall lv ins c, lv_ok lv -> cenv_ok c -> exists c', step_conc lv ins c c' /\ cenv_ok c'.
+(* every instruction other than a failing `assert` has a successor from every word state, and it is a word state *)
+Theorem step_conc_total : forall lv ins c, lv_ok lv -> cenv_ok c -> assert_passes lv ins c ->
+  exists c', step_conc lv ins c c' /\ cenv_ok c'.
 Proof. exact WordClosed.step_conc_total. Qed.
 Print Assumptions step_conc_total.
 
